@@ -49,6 +49,7 @@ deriving DecidableEq, Repr, Inhabited
 /-- an entered `Context.request()` context manager (a suspended pair of generators):
     the class, the object bound by `with self._instance as m`, the flags it captured. -/
 structure Frame where
+  id : Nat        -- identity of the generator object (a serial number; never observable)
   cls : Nat
   obj : Nat
   excl : Bool
@@ -86,6 +87,9 @@ structure St where
   objs : Nat → Obj := fun _ => {}
   nObj : Nat := 0
   mgrs : Nat → Mgr := fun _ => {}
+  nFrame : Nat := 0
+  open_ : List Frame := []        -- every entered `Context.request()` context manager that has not been left yet
+                                  -- (the suspended generator objects; book-keeping only, never read by the model)
   order : List Nat := []          -- `_teardown_order`
   openCtx : Nat := 0              -- `_open_contexts`
   keepAlive : Bool := false       -- `_keep_alive`
@@ -181,12 +185,15 @@ def teardownF (rx : Frame → St → Option Exc → R) (c : Nat) (s : St) : R :=
   | some o =>
     -- `self._instance._rc = 1`
     let s := s.setObj o { s.obj o with rc := 1 }
-    -- `self._cx.close()`: the from_context generator resumes and leaves its ExitStack:
-    -- first `cls(...)` (the machine goes down), then the dependency requests, last one first
+    -- `self._cx.close()`: the ExitStack pops the from_context generator, which resumes and leaves
+    -- its own ExitStack (popping as it goes): first `cls(...)` (the machine goes down), then the
+    -- dependency requests, last one first
+    let held := (s.mgr c).held
+    let s := s.setMgr c { s.mgr c with held := [] }
     let r1 := objExit cfg s o
-    let r2 := exitFramesWith rx (r1.1.mgr c).held.reverse r1.1 r1.2
+    let r2 := exitFramesWith rx held.reverse r1.1 r1.2
     -- `finally: self._instance = None`
-    (r2.1.setMgr c { r2.1.mgr c with inst := none, held := [] }, r2.2)
+    (r2.1.setMgr c { r2.1.mgr c with inst := none }, r2.2)
 
 /-- leave one `Context.request()` context manager with in-flight exception `e`
     (`td` = `InstanceManager.teardown` on the same level) -/
@@ -204,7 +211,7 @@ def reqExitF (td : Nat → St → R) (f : Frame) (s : St) (e : Option Exc) : R :
   let r1 := objExit cfg r0.1 f.obj
   let e1 := later r0.2 r1.2
   -- `finally:` of InstanceManager.request
-  let s := r1.1
+  let s := { r1.1 with open_ := r1.1.open_.filter fun g => g.id != f.id }
   let m := s.mgr f.cls
   let s := s.setMgr f.cls { m with users := m.users - 1 }
   let r2 : R :=
@@ -268,11 +275,13 @@ def reqEnterF (td ini : Nat → St → R) (dep : Bool) (c : Nat) (reset excl : B
   | some o =>
     if !m.avail then let r := s.newExc .ctx; (r.1, .inr r.2) else
     let s := s.setMgr c { m with users := m.users + 1, avail := m.avail && !excl }
+    let fr : Frame := { id := s.nFrame, cls := c, obj := o, excl := excl, roe := roe, dep := dep }
+    let s := { s with nFrame := s.nFrame + 1, open_ := s.open_ ++ [fr] }
     let r2 := objEnter cfg s o
     match r2.2 with
     | some ex =>
       -- `finally:` of InstanceManager.request
-      let s := r2.1
+      let s := { r2.1 with open_ := r2.1.open_.filter fun g => g.id != fr.id }
       let m := s.mgr c
       let s := s.setMgr c { m with users := m.users - 1 }
       if excl || (!s.keepAlive && m.users - 1 == 0) then
@@ -285,7 +294,7 @@ def reqEnterF (td ini : Nat → St → R) (dep : Bool) (c : Nat) (reset excl : B
       let s := r2.1
       let s := if s.order.contains c then s else { s with order := s.order ++ [c] }
       let s := s.log (.yielded dep c o)
-      (s, .inl { cls := c, obj := o, excl := excl, roe := roe, dep := dep })
+      (s, .inl fr)
 
 /-- the operations on one dependency level -/
 structure Ops where
